@@ -513,6 +513,12 @@ def c10_descs(tier):
     D("x_field_named_if", [packet("P", [scalar("if", 8)])])
     D("x_tag_named_if", [enum("E", 8, [tag("if", 1), tag("B", 2)]), packet("P", [typedef("e", "E")])])
     D("x_field_named_o", [packet("P", [scalar("o", 8), scalar("other", 8)])])
+    # field identifiers equal to locals of the generated parsers / serializers (two declarations, so that what is
+    # generated for the second can depend on the first)
+    D("x_field_named_chunk", [packet("Fragment", [scalar("chunk", 4), scalar("last", 1), scalar("fixed_value", 3)]),
+                              enum("Status", 8, [tag("OK", 0), tag("KO", 1)]),
+                              packet("Segment", [scalar("more", 1), scalar("chunk", 7), scalar("offset", 16)])])
+    D("x_field_named_span", [packet("P", [scalar("span", 8), scalar("buf", 8), scalar("payload_size", 8), array("bytes", 8)])])
     D("x_fixed_w64", [packet("P", [fixed(0xffffffffffffffff, 64)])])
     D("x_tag_max", [enum("E", 64, [tag("A", 0xffffffffffffffff)]), packet("P", [fixedenum("A", "E")])])
     D("x_child_no_payload_parent", [packet("A", [scalar("v", 8)]), packet("B", [], parent="A", cons=[cons("v", 1)]),
